@@ -84,6 +84,102 @@ func init() {
 	})
 }
 
+// ip_set plugins that reference other sets: who writes an IPSet's member slice `mg`, and the shape of the
+// loops over `sets:` (NewIPSet) and over the members (MatcherGroup.Match).
+func init() {
+	factFuncs = append(factFuncs, func(ex *factExtractor) {
+		const rel = "plugin/data_provider/ip_set/ip_set.go"
+		f := ex.file(rel)
+		newFn := ex.fn(rel, "", "NewIPSet")
+		// every write of a field `mg` in the file: `p.mg = append(p.mg, <one value>)` inside NewIPSet is a
+		// "self append"; everything else (another right-hand side, `append(p.mg, xs...)`, an element write,
+		// `&x.mg`, a composite literal with an `mg:` key, a write outside NewIPSet) is an "other write"
+		selfAppends, otherWrites := int64(0), int64(0)
+		isMg := func(e ast.Expr) bool {
+			sel, ok := e.(*ast.SelectorExpr)
+			return ok && sel.Sel.Name == "mg"
+		}
+		if f != nil {
+			ast.Inspect(f, func(n ast.Node) bool {
+				switch x := n.(type) {
+				case *ast.AssignStmt:
+					for k, l := range x.Lhs {
+						target := l
+						if ix, ok := l.(*ast.IndexExpr); ok {
+							target = ix.X
+						}
+						if sl, ok := l.(*ast.SliceExpr); ok {
+							target = sl.X
+						}
+						if !isMg(target) {
+							continue
+						}
+						good := false
+						if target == l && x.Tok == token.ASSIGN && len(x.Lhs) == len(x.Rhs) && newFn != nil && x.Pos() >= newFn.Pos() && x.End() <= newFn.End() && ex.str(l) == "p.mg" {
+							if c, ok := x.Rhs[k].(*ast.CallExpr); ok && ex.str(c.Fun) == "append" && len(c.Args) == 2 && !c.Ellipsis.IsValid() && ex.str(c.Args[0]) == "p.mg" {
+								good = true
+							}
+						}
+						if good {
+							selfAppends++
+						} else {
+							otherWrites++
+						}
+					}
+				case *ast.UnaryExpr:
+					if x.Op == token.AND && isMg(x.X) {
+						otherWrites++
+					}
+				case *ast.KeyValueExpr:
+					if id, ok := x.Key.(*ast.Ident); ok && id.Name == "mg" {
+						otherWrites++
+					}
+				case *ast.IncDecStmt:
+					if isMg(x.X) {
+						otherWrites++
+					}
+				}
+				return true
+			})
+		}
+		ex.setNat("c13IPSetMgSelfAppends", selfAppends, f != nil && newFn != nil, "ip_set.go: number of statements `p.mg = append(p.mg, <one value>)` in NewIPSet")
+		ex.setNat("c13IPSetMgOtherWrites", otherWrites, f != nil && newFn != nil, "ip_set.go: number of other writes of a field `mg` (other right-hand side, append with `...`, element write, &x.mg, literal key, outside NewIPSet)")
+		fresh, ownFirst, rangesSets := false, false, false
+		if newFn != nil && len(newFn.Body.List) > 0 {
+			fresh = ex.str(newFn.Body.List[0]) == "p := &IPSet{}"
+			top := []string{}
+			for _, st := range newFn.Body.List {
+				top = append(top, ex.str(st))
+			}
+			iSort, iOwn, iLoop := indexOf(top, "l.Sort()"), indexOf(top, "if l.Len() > 0 { p.mg = append(p.mg, l) }"), -1
+			for k, st := range newFn.Body.List {
+				if rs, ok := st.(*ast.RangeStmt); ok {
+					if iLoop >= 0 {
+						iLoop = -2 // more than one loop
+						break
+					}
+					iLoop = k
+					rangesSets = ex.str(rs.X) == "args.Sets" && rs.Key != nil && ex.str(rs.Key) == "_" && rs.Value != nil && ex.str(rs.Value) == "tag"
+				}
+			}
+			ownFirst = iSort >= 0 && iSort < iOwn && iOwn < iLoop && iLoop == len(top)-2 && top[len(top)-1] == "return p, nil"
+			rangesSets = rangesSets && iLoop >= 0
+		}
+		ex.setBool("c13IPSetFresh", fresh, newFn != nil, "NewIPSet starts with `p := &IPSet{}` (an empty member slice of its own)")
+		ex.setBool("c13IPSetOwnListFirst", ownFirst, newFn != nil, "NewIPSet: `l.Sort()`, then `if l.Len() > 0 { p.mg = append(p.mg, l) }`, then the only loop, then `return p, nil`")
+		ex.setBool("c13IPSetRangesSets", rangesSets, newFn != nil, "NewIPSet: the loop is `for _, tag := range args.Sets`")
+		get := ex.fn(rel, "IPSet", "GetIPMatcher")
+		ex.setBool("c13GetIPMatcherShape", get != nil && ex.str(get.Body) == "{ return MatcherGroup(d.mg) }", get != nil, "GetIPMatcher: `return MatcherGroup(d.mg)` (the member slice itself, not a copy)")
+		match := ex.fn(rel, "MatcherGroup", "Match")
+		shape := false
+		if match != nil && len(match.Body.List) == 2 {
+			rs, ok := match.Body.List[0].(*ast.RangeStmt)
+			shape = ok && ex.str(rs.X) == "mg" && rs.Key != nil && ex.str(rs.Key) == "_" && rs.Value != nil && ex.str(rs.Value) == "m" && ex.str(match.Body.List[1]) == "return false"
+		}
+		ex.setBool("c13GroupMatchShape", shape, match != nil, "MatcherGroup.Match: `for _, m := range mg { ... }` followed by `return false`")
+	})
+}
+
 // stmtStrings lists every statement under node, printed.
 func stmtStrings(ex *factExtractor, node ast.Node) []string {
 	var out []string
